@@ -66,12 +66,29 @@ def World.params (w : World) : Params Head Head := forkParams w.p w.hostile
 def World.step (w : World) (s : St Head Head) (t : Nat) (r : Res) : Option (St Head Head) :=
   ClientLatest.step w.params w.cl w.presented w.priv s t r
 
-/-- successors of `s` by one invisible step (a `fork` answer is visible through `SecurityError`, so it is not taken here) -/
+/-- is thread `t`'s next step local (touches no shared variable) and without a visible alternative?  `start` always;
+`memCheck` when `fork` is not among the possible answers (a `fork` answer is visible through `SecurityError`). -/
+def localStep (w : World) (s : St Head Head) (t : Nat) : Bool :=
+  let l := s.th t
+  match l.pc with
+  | .start => true
+  | .memCheck _ =>
+    if w.params.size l.tree ≤ w.params.size l.latest then !((w.params.chk l.tree l.latest).contains Res.fork)
+    else !((w.params.chk l.latest l.tree).contains Res.fork)
+  | _ => false
+
+def stepsOf (w : World) (s : St Head Head) (t : Nat) : List (St Head Head) :=
+  match (s.th t).pc with
+  | .memCheck _ => [Res.ok, Res.error].filterMap (fun r => w.step s t r)
+  | pc => if invisible pc then (w.step s t .ok).toList else []
+
+/-- successors of `s` by one invisible step (a `fork` answer is visible through `SecurityError`, so it is not taken here).
+Partial-order reduction: a local step commutes with every step of every other thread, so if some thread has one, only
+that thread is moved. -/
 def tauSucc (w : World) (s : St Head Head) : List (St Head Head) :=
-  (List.range w.nth).flatMap (fun t =>
-    match (s.th t).pc with
-    | .memCheck _ => ([Res.ok, Res.error].filterMap (fun r => w.step s t r))
-    | pc => if invisible pc then (w.step s t .ok).toList else [])
+  match (List.range w.nth).find? (fun t => localStep w s t) with
+  | some t => stepsOf w s t
+  | none => (List.range w.nth).flatMap (fun t => stepsOf w s t)
 
 /-- closure under invisible steps: worklist with a hash set of snapshots; `fuel` bounds the number of expansions -/
 def closureLoop (w : World) : Nat → Std.HashSet (List Nat) → List (St Head Head) → List (St Head Head) → List (St Head Head)
